@@ -51,6 +51,14 @@ Theorem clocktime_add_additive :
                       ticks c2 = ticks c12 /\ fraction c2 == fraction c12.
 Proof. exact ct_add_pos_additive. Qed.
 
+(** Subtracting an amount not larger than the time and adding it again returns the original time. *)
+Theorem clocktime_sub_add_roundtrip :
+  forall (c : ctime Q) (t : Q),
+    wf c -> 0 <= t -> t <= value c -> (ticks c <= 2 ^ 64 - 2)%Z ->
+    exists c1 c2, ct_sub_pos c t = Ok c1 /\ ct_add_pos c1 t = Ok c2 /\
+                  ticks c2 = ticks c /\ fraction c2 == fraction c.
+Proof. exact ct_sub_add_roundtrip. Qed.
+
 (** Ordering agrees with ticks + fraction. *)
 Theorem clocktime_order :
   forall a b : ctime Q, frac_ok a -> frac_ok b -> ct_cmp a b = Some (value a ?= value b).
